@@ -70,6 +70,30 @@ class Check:
         return sum(1 for o in self.obligations if o.rule == rule_prefix or o.rule.startswith(rule_prefix + "."))
 
 
+class FilteredCheck:
+    """View of a Check that keeps only the given rules (optionally renamed): lets one property reuse the rule set of another."""
+
+    def __init__(self, check: Check, rename: dict[str, str]):
+        self._c = check
+        self._rename = rename
+
+    def __getattr__(self, name: str) -> Any:
+        return getattr(self._c, name)
+
+    def ok(self, rule: str, *a: Any, **k: Any) -> None:
+        if rule in self._rename:
+            self._c.ok(self._rename[rule], *a, **k)
+
+    def violation(self, rule: str, *a: Any, **k: Any) -> None:
+        if rule in self._rename:
+            self._c.violation(self._rename[rule], *a, **k)
+
+    def require(self, cond: bool, rule: str, *a: Any, **k: Any) -> bool:
+        if rule in self._rename:
+            return self._c.require(cond, self._rename[rule], *a, **k)
+        return bool(cond)
+
+
 def load_known() -> dict[str, Any]:
     if not os.path.exists(KNOWN_FINDINGS):
         return {"known": [], "fixed": []}
@@ -97,7 +121,8 @@ def finish(check: Check, floors: dict[str, int], root: str, selftest: dict | Non
     os.makedirs(replay_dir, exist_ok=True)
 
     # instance floors: a rule that matches fewer sites than confirmed by hand is broken, not passing
-    for rule, floor in floors.items():
+    # (when a violation was already established the floors say nothing more: the violation is reported)
+    for rule, floor in ({} if any(o.status == "violation" for o in check.obligations) else floors).items():
         got = check.count(rule)
         if got < floor:
             raise AnalysisError(
